@@ -7,7 +7,6 @@ import (
 	"sort"
 
 	"github.com/paulmach/orb"
-	"github.com/paulmach/orb/planar"
 	"github.com/paulmach/orb/quadtree"
 
 	"verifharness/internal/gen"
@@ -133,17 +132,19 @@ func exactCase(c Case) bool {
 }
 
 // relTol is the only tolerance of this check. It applies to histories with
-// non-dyadic coordinates only ("float" class): there the reference metric is
-// planar.DistanceSquared and ranks/minima are compared within relTol relative,
+// non-dyadic coordinates only ("float" classes): there the reference metric is the
+// float64 expression dx*dx+dy*dy and ranks/minima are compared within relTol relative,
 // because the implementation prunes with a rounded square root.
 const relTol = 1e-9
 
+// d2 is the harness's own squared euclidean distance (round I: never the
+// library's planar.DistanceSquared, which the quadtree itself calls — an oracle
+// borrowed from it would move with any defect in it). In the dyadic classes it
+// is exact; in the float classes it is the plainly rounded float64 expression
+// and comparisons allow relTol.
 func (e *env) d2(p, q orb.Point) float64 {
-	if e.exact {
-		dx, dy := p[0]-q[0], p[1]-q[1]
-		return dx*dx + dy*dy
-	}
-	return planar.DistanceSquared(p, q)
+	dx, dy := p[0]-q[0], p[1]-q[1]
+	return dx*dx + dy*dy
 }
 
 func (e *env) same(a, b float64) bool {
